@@ -120,6 +120,8 @@ def check(case):
         extra.append("--logging-filter=%s" % cfg["logging_filter"])
     from ..harness import make_config
     config = make_config(cfg, extra_args=extra)
+    if case.get("store_all"):
+        config.junit = True     # every scenario keeps its captured output for the reporters
     if case.get("capture_hooks"):
         # feature / rule / scenario / step / tag hooks wrapped with the documented behave.log_capture.capture
         # decorator (the hooks themselves log nothing then): the scenario's own capture must be untouched
@@ -276,6 +278,20 @@ def check(case):
                 if destination(k, lvl, logger, cap, cfg) == "captured" and (text in plain_text or text in out_text
                                                                               or text in err_text):
                     res.fail("C18.passing-output-shown", "output %s of passing scenario %r is shown" % (text, name))
+                    break
+        # what is stored with the scenario for the reporters is this scenario's output only
+        if len(objs) == 1:
+            stored = getattr(objs[0], "captured", None)
+            text_stored = u""
+            try:
+                text_stored = u"\n".join(x for x in (stored.stdout, stored.stderr, stored.log_output) if x) \
+                    if stored is not None else u""
+            except AttributeError:
+                text_stored = u""
+            for on in ref.selected:
+                if on != name and (u"|%s|" % on) in text_stored:
+                    res.fail("C18.stored.foreign", "the output stored with scenario %r (status %s) contains output of "
+                             "scenario %r: %r" % (name, objs[0].status.name, on, text_stored[-300:]))
                     break
     # -- captured kinds never reach the sentinels; uncaptured ones arrive in order
     for dest, text_all in (("stdout", out_text), ("stderr", err_text)):
@@ -435,6 +451,8 @@ def random_case(draw):
         case["levels"] = draw(st.lists(st.sampled_from(["WARNING", "ERROR"]), min_size=1, max_size=2))
     if draw(st.integers(0, 3)) == 0:
         case["capture_hooks"] = draw(st.sampled_from(["plain", "error"]))
+    if draw(st.integers(0, 2)) == 0:
+        case["store_all"] = True
     if prog["cfg"]["capture_log"] and draw(st.integers(0, 7)) == 0:
         case["flood"] = draw(st.sampled_from([999, 1000, 1001, 1500, 2100]))
     # step-hook faults
